@@ -172,6 +172,8 @@ func (r *NetconfResponse) record1dot1Chunks() error {
 
 	var cursor int
 
+	var sawEndOfChunks bool
+
 	for cursor < len(d) {
 		if d[cursor] == byte('\n') {
 			// we don't need this at the start of this loop, but this lets us easily handle newlines
@@ -189,13 +191,22 @@ func (r *NetconfResponse) record1dot1Chunks() error {
 
 		cursor++
 
+		if cursor >= len(d) {
+			return errNetconf1Dot1ParseError(
+				"unable to parse netconf response: data ends after chunk marker",
+			)
+		}
+
 		if d[cursor] == byte('#') {
+			sawEndOfChunks = true
+
 			break
 		}
 
 		var chunkSizeStr string
 
-		for chunkSizeLen := 0; chunkSizeLen <= maxChunkSizeCharLen; chunkSizeLen++ {
+		for chunkSizeLen := 0; chunkSizeLen <= maxChunkSizeCharLen &&
+			cursor+chunkSizeLen < len(d); chunkSizeLen++ {
 			if d[cursor+chunkSizeLen] == byte('\n') {
 				chunkSizeStr = string(d[cursor : cursor+chunkSizeLen])
 
@@ -211,13 +222,25 @@ func (r *NetconfResponse) record1dot1Chunks() error {
 			)
 		}
 
-		chunkSize, err := strconv.Atoi(chunkSizeStr)
-		if err != nil {
+		// strconv.ParseUint rejects signs, rfc6242 chunk sizes are 1..4294967295
+		chunkSize64, err := strconv.ParseUint(chunkSizeStr, 10, 32)
+		if err != nil || chunkSize64 == 0 {
 			return errNetconf1Dot1ParseError(
 				fmt.Sprintf(
-					"unable to parse netconf response: unable to parse chunk size '%s': %s",
+					"unable to parse netconf response: unable to parse chunk size '%s'",
 					chunkSizeStr,
-					err,
+				),
+			)
+		}
+
+		chunkSize := int(chunkSize64)
+
+		if chunkSize > len(d)-cursor {
+			return errNetconf1Dot1ParseError(
+				fmt.Sprintf(
+					"unable to parse netconf response: chunk size %d exceeds remaining data (%d)",
+					chunkSize,
+					len(d)-cursor,
 				),
 			)
 		}
@@ -228,6 +251,12 @@ func (r *NetconfResponse) record1dot1Chunks() error {
 		// cursor accordingly -- we can ignore newlines after the chunk since we handle that at
 		// the top of this loop
 		cursor += chunkSize
+	}
+
+	if !sawEndOfChunks {
+		return errNetconf1Dot1ParseError(
+			"unable to parse netconf response: end of chunks marker missing",
+		)
 	}
 
 	joined = bytes.TrimPrefix(joined, []byte(xmlHeader))
